@@ -18,12 +18,12 @@ from ..seeds import H, rng
 PROP = "C16"
 
 ERROR_KINDS = {
-    "mkdir": ["erofs_mkdir", "enospc_mkdir", "eacces_mkdir"],
-    "open": ["enospc_open", "eacces_open", "emfile_open"],
+    "mkdir": ["erofs_mkdir", "enospc_mkdir", "eacces_mkdir", "interrupt_mkdir"],
+    "open": ["enospc_open", "eacces_open", "emfile_open", "interrupt_open"],
     "os_open": ["eacces_osopen", "enospc_osopen"],
     "utime": ["eacces_utime"],
-    "write": ["eio_write", "enospc_write", "enospc_write_short", "eio_write_short"],
-    "close": ["enospc_close", "eio_close"],
+    "write": ["eio_write", "enospc_write", "enospc_write_short", "eio_write_short", "interrupt_write"],
+    "close": ["enospc_close", "eio_close", "interrupt_close"],
 }
 
 
